@@ -149,13 +149,14 @@ pub struct State {
     pub ncases: u64,
     pub per_key: HashMap<String, usize>,
     pub max_per_key: usize,
+    pub stats: bool,
 }
 
 thread_local! {
     static ST: RefCell<State> = RefCell::new(State {
-        seed: 1, iters: 300, prop: String::new(), config: String::new(), krate: String::new(), ty: String::new(),
+        seed: 1, iters: 1000, prop: String::new(), config: String::new(), krate: String::new(), ty: String::new(),
         cur_prop: String::new(), input: Vec::new(), nfail: 0, hidden: 0, suppressed: 0, ncases: 0,
-        per_key: HashMap::new(), max_per_key: 3,
+        per_key: HashMap::new(), max_per_key: 3, stats: false,
     });
     static LAST_PANIC: RefCell<String> = RefCell::new(String::new());
 }
